@@ -21,6 +21,7 @@ RULE = ("histories of 6-16 calls on shared objects of one aggregate (2-3 sites, 
         "two repetitions of an earlier call. distinct = the sequence of call kinds; non-trivial iff at least one repeated call was separated from its first "
         "occurrence by a different call on the same shared objects.")
 RULE = RULE + " Round-6 workloads: evolution superoperators (all-at-once and step by step) also over the operator-form tensor that a propagator shares."
+RULE = RULE + " Round-7 workloads: histories include propagations driven by an array field (time-independent and time-dependent tensor)."
 ASSUMPTIONS = ["caches the library adds lazily (correlation-function integrals, splines, has_system_bath_coupling flags) and the working memory of a hierarchy "
                "(its auxiliary operators) are not 'the objects passed in'; purity is judged on Hamiltonian data/RWA/remainder coupling/basis flags, "
                "system-bath operators, rates and correlation functions, tensor data or operator components, states, time axes and the hierarchy description",
